@@ -519,6 +519,15 @@ impl ByteArrayDecoderDeltaLength {
 
         if self.validate_utf8 {
             output.check_valid_utf8(initial_values_length)?;
+            // The values were validated as one contiguous string; for every single value to be
+            // valid UTF-8 each one must also start on a character boundary
+            let mut start_offset = initial_values_length;
+            for length in src_lengths {
+                if *length > 0 && (output.values[start_offset] as i8) < -0x40 {
+                    return Err(general_err!("encountered non UTF-8 data"));
+                }
+                start_offset += *length as usize;
+            }
         }
         Ok(to_read)
     }
